@@ -19,7 +19,7 @@ func (g *G) pick(xs []string) string { return xs[g.r.Below(len(xs))] }
 var cronGood = []string{"* * * * *", "0 1 * * *", "*/5 * * * 1-5", "0 0 1 1 *", "15,45 8-18 * * mon-fri", "TZ=UTC 0 1 * * *", "CRON_TZ=Asia/Tokyo 30 4 * * *", "0 0 30 2 *"}
 var cronBad = []string{"", "x", "* * * *", "60 * * * *", "@daily", "@every 1h", "* * * * * *", "TZ=UTC", "CRON_TZ=UTC", "TZ=Nowhere/City 0 1 * * *", "TZ=", "1-0 * * * *", "*/0 * * * *"}
 var sigGood = []string{"SIGTERM", "SIGINT", "SIGKILL", "SIGUSR1", "SIGHUP"}
-var sigBad = []string{"", "TERM", "sigterm", "SIGFOO", "15", "SIGTERM "}
+var sigBad = []string{"", "TERM", "sigterm", "SIGFOO", "15", "SIGTERM ", "sigint", "SigTerm", "Sigkill", "sigKILL", "SIGint", "sighup", " SIGTERM"}
 var texts = []string{"", "a", "hello world", "x=y", "$VQ_A", "${VQ_B}/x", "`echo hi`", "pre `echo one` mid `echo two`", "re:^a.*$", "re:[", "re:(", "re:", "ünï-✓", "a\nb", "  pad  ", "1", "true", "null", "~", "$", "${", "${}", "a$", "`", "``", "`echo", "\"q\"", "'s'", "k: v", "#c", "[x]", "{y}", "$1", "${VQ_UNSET}"}
 var cmds = []string{"echo hi", "true", "echo $VQ_A", "sh -c 'echo 1'", "echo `echo in`", "false", "ls -l /", "echo", " echo", "echo  two  spaces"}
 var etypes = []string{"", "command", "http", "docker", "ssh", "mail", "jq", "subworkflow", "nosuch"}
@@ -698,4 +698,66 @@ func anyFields() []anyField {
 
 func minimalDef() *Y {
 	return Map(E("name", Str("wf")), E("steps", List(Map(E("name", Str("s1")), E("command", Str("echo hi"))))))
+}
+
+// targeted: small systematic families aimed at validations that are easy to weaken without any test noticing -
+// spellings of signal names (validation and stored value must agree), empty and nested-empty maps in executor
+// config (convertMap must reach them), step-level invalid definitions (the validating entry point LoadYAML must
+// look at the steps).
+func targeted(emit func(stream string, t *Y)) {
+	spell := []string{"SIGTERM", "SIGINT", "SIGKILL", "SIGUSR1", "SIGHUP", "SIGQUIT", "sigterm", "sigint", "Sigint", "SigTerm",
+		"sigKILL", "SIGterm", "sigusr1", "TERM", "term", "INT", "9", "SIG", "", " SIGINT", "SIGINT ", "SIGRTMIN", "SIGCHLD"}
+	for _, sg := range spell {
+		t := minimalDef()
+		t.Get("steps").L[0].Set("signalOnStop", Str(sg))
+		emit("targeted:signal", t)
+		t = minimalDef()
+		t.Set("handlerOn", Map(E("exit", Map(E("command", Str("echo bye")), E("signalOnStop", Str(sg))))))
+		emit("targeted:signal", t)
+	}
+	cfgs := []*Y{
+		Map(), Map(E("headers", Map())), Map(E("a", Map(E("b", Map())))), Map(E("a", Map(E("b", Map(E("c", Map())))))),
+		Map(E("headers", Map()), E("timeout", Int(5))), Map(E("a", Map(E("b", Map()), E("c", Str("v"))))),
+		Map(E("l", List())), Map(E("l", List(List()))), Map(E("l", List(Map()))), Map(E("a", Map(E("l", List(Map()))))),
+		Map(E("a", Map(E("x", Null())))), Map(E("a", Null())),
+	}
+	for _, cfg := range cfgs {
+		for _, typ := range []string{"http", "command", ""} {
+			t := minimalDef()
+			t.Get("steps").L[0].Set("executor", Map(E("type", Str(typ)), E("config", cfg.Clone())))
+			emit("targeted:execconfig", t)
+		}
+		t := minimalDef()
+		t.Set("handlerOn", Map(E("failure", Map(E("executor", Map(E("type", Str("mail")), E("config", cfg.Clone())))))))
+		emit("targeted:execconfig", t)
+	}
+	// step-level invalid definitions
+	bad := []*Y{
+		Map(E("name", Str("s1"))),                             // nothing to execute
+		Map(E("command", Str("echo hi"))),                     // no name
+		Map(E("name", Str("")), E("command", Str("echo hi"))), // empty name
+		Map(E("name", Str("s1")), E("command", Str(""))),      // empty command
+		Map(E("name", Str("s1")), E("command", Int(5))),       // command of a wrong kind
+		Map(E("name", Str("s1")), E("executor", Int(5))),      // executor of a wrong kind
+		Map(E("name", Str("s1")), E("executor", List(Str("http")))),
+		Map(E("name", Str("s1")), E("executor", Map(E("kind", Str("http"))))),
+		Map(E("name", Str("s1")), E("executor", Map(E("type", Int(1))))),
+		Map(E("name", Str("s1")), E("executor", Map(E("type", Str("http")), E("config", Str("x"))))),
+		Map(E("name", Str("s1")), E("call", Map(E("function", Str("nosuch")), E("args", Map(E("x", Str("v"))))))),
+		Map(E("name", Str("s1")), E("call", Map(E("function", Str("f")), E("args", Map())))),
+		Map(E("name", Str("s1")), E("call", Map(E("function", Str("f")), E("args", Map(E("y", Str("v"))))))),
+		Map(E("name", Str("s1")), E("call", Map(E("function", Str("f")), E("args", Map(E("x", List())))))),
+		Map(E("name", Str("s1")), E("command", Str("echo hi")), E("signalOnStop", Str("NOSIG"))),
+		Map(E("name", Str("s1")), E("command", List())),
+		Map(E("name", Str("s1")), E("executor", Str(""))),
+	}
+	for _, st := range bad {
+		t := Map(E("name", Str("wf")), E("functions", List(Map(E("name", Str("f")), E("params", Str("x")), E("command", Str("echo $x"))))),
+			E("steps", List(Map(E("name", Str("ok1")), E("command", Str("echo hi"))), st.Clone())))
+		emit("targeted:badstep", t)
+		h := st.Clone()
+		t = Map(E("name", Str("wf")), E("functions", List(Map(E("name", Str("f")), E("params", Str("x")), E("command", Str("echo $x"))))),
+			E("steps", List(Map(E("name", Str("ok1")), E("command", Str("echo hi"))))), E("handlerOn", Map(E("success", h))))
+		emit("targeted:badstep", t)
+	}
 }
